@@ -106,6 +106,15 @@ class PrintInterp(PlaceInterp):
                     return ('ctor', 'core::option::Option::None')
                 raise Unanalysable('str::get with an index the evaluator does not model')
             return super()._mcall(dict(e, recv=self._bindnode(recv, env, e['recv'])), env)
+        if name in ('split_once', 'rsplit_once') and len(e.get('args', [])) == 1:
+            recv = deref(self.val(e['recv'], env))
+            sep = deref(self.val(e['args'][0], env))
+            if isinstance(recv, str) and isinstance(sep, (str, int)):
+                sep = sep if isinstance(sep, str) else chr(sep)
+                i = recv.find(sep) if name == 'split_once' else recv.rfind(sep)
+                if i < 0:
+                    return ('ctor', 'core::option::Option::None')
+                return ('ctor', 'core::option::Option::Some', ((recv[:i], recv[i + len(sep):]),))
         if name == 'split' and len(e.get('args', [])) == 1:
             recv = deref(self.val(e['recv'], env))
             sep = deref(self.val(e['args'][0], env))
